@@ -45,6 +45,8 @@ def agree(case, impl, model):
 
 
 def oracle_line(case, impl, model, bad):
+    if 'ORACLE-FAIL' in impl or 'panic' in impl.split('(before')[0]:
+        return '(tmpchk 63 (before 61) (during) (after) (opens))'     # a harness-level oracle failed: never accepted
     try:
         o = sx.parse(impl)
         d = {x[0]: x for x in o if isinstance(x, list)}
